@@ -117,7 +117,15 @@ def main():
     bad = [r for r in results if not r.get("ok")]
     for r in results:
         print(f"{'ok  ' if r.get('ok') else 'MISS'} {r['prop']} {r['kind']:7s} {r['name']:45s} rc={r.get('rc')} {r.get('clause','')[:110]} {r.get('error','')}")
-    json.dump(results, open(os.path.join(VERIF, "selftest_report.json"), "w"), indent=1)
+    rp = os.path.join(VERIF, "selftest_report.json")
+    merged = {}
+    if os.path.exists(rp):
+        for r in json.load(open(rp)):
+            merged[(r["kind"], r["name"])] = r
+    for r in results:
+        r.pop("patch", None)
+        merged[(r["kind"], r["name"])] = r
+    json.dump(sorted(merged.values(), key=lambda r: (r["prop"], r["kind"], r["name"])), open(rp, "w"), indent=1)
     print(f"{len(results) - len(bad)}/{len(results)} as expected")
     sys.exit(1 if bad else 0)
 
